@@ -131,6 +131,8 @@ const ASCII_CHARS: &[u8] = b"abcdefghijklmnopqrstuvwxyzABCDEFGHIJKLMNOPQRSTUVWXY
 /// this ensures generation never fails due to insufficient entropy.
 impl<'a> EntropySource for GenerationSource<'a> {
     fn choose_index(&mut self, max: usize) -> usize {
+        #[cfg(feature = "verif")]
+        crate::verif::on_draw();
         if max == 0 {
             return 0;
         }
@@ -142,6 +144,8 @@ impl<'a> EntropySource for GenerationSource<'a> {
     }
 
     fn gen_bool(&mut self) -> bool {
+        #[cfg(feature = "verif")]
+        crate::verif::on_draw();
         match self {
             GenerationSource::Rand(rng) => rng.random(),
             // fallback to false if fuzzer bytes exhausted
@@ -150,6 +154,8 @@ impl<'a> EntropySource for GenerationSource<'a> {
     }
 
     fn gen_u8(&mut self) -> u8 {
+        #[cfg(feature = "verif")]
+        crate::verif::on_draw();
         match self {
             GenerationSource::Rand(rng) => rng.random(),
             GenerationSource::Arbitrary(u) => u.arbitrary().unwrap_or(0),
@@ -157,6 +163,8 @@ impl<'a> EntropySource for GenerationSource<'a> {
     }
 
     fn gen_u16(&mut self) -> u16 {
+        #[cfg(feature = "verif")]
+        crate::verif::on_draw();
         match self {
             GenerationSource::Rand(rng) => rng.random(),
             GenerationSource::Arbitrary(u) => u.arbitrary().unwrap_or(0),
@@ -164,6 +172,8 @@ impl<'a> EntropySource for GenerationSource<'a> {
     }
 
     fn gen_u32(&mut self) -> u32 {
+        #[cfg(feature = "verif")]
+        crate::verif::on_draw();
         match self {
             GenerationSource::Rand(rng) => rng.random(),
             GenerationSource::Arbitrary(u) => u.arbitrary().unwrap_or(0),
@@ -171,6 +181,8 @@ impl<'a> EntropySource for GenerationSource<'a> {
     }
 
     fn gen_i32(&mut self) -> i32 {
+        #[cfg(feature = "verif")]
+        crate::verif::on_draw();
         match self {
             GenerationSource::Rand(rng) => rng.random(),
             GenerationSource::Arbitrary(u) => u.arbitrary().unwrap_or(0),
@@ -178,6 +190,8 @@ impl<'a> EntropySource for GenerationSource<'a> {
     }
 
     fn gen_i64(&mut self) -> i64 {
+        #[cfg(feature = "verif")]
+        crate::verif::on_draw();
         match self {
             GenerationSource::Rand(rng) => rng.random(),
             GenerationSource::Arbitrary(u) => u.arbitrary().unwrap_or(0),
@@ -185,6 +199,8 @@ impl<'a> EntropySource for GenerationSource<'a> {
     }
 
     fn gen_f64(&mut self) -> f64 {
+        #[cfg(feature = "verif")]
+        crate::verif::on_draw();
         match self {
             GenerationSource::Rand(rng) => rng.random(),
             GenerationSource::Arbitrary(u) => {
@@ -195,6 +211,8 @@ impl<'a> EntropySource for GenerationSource<'a> {
     }
 
     fn gen_range(&mut self, min: usize, max: usize) -> usize {
+        #[cfg(feature = "verif")]
+        crate::verif::on_draw();
         if min >= max {
             return min;
         }
@@ -208,6 +226,8 @@ impl<'a> EntropySource for GenerationSource<'a> {
     }
 
     fn gen_bytes(&mut self, len: usize) -> Vec<u8> {
+        #[cfg(feature = "verif")]
+        crate::verif::on_draw();
         match self {
             GenerationSource::Rand(rng) => {
                 let mut bytes = vec![0u8; len];
